@@ -235,6 +235,9 @@ func (c *Classifier) fuseRanges(origin string, matched matchRanges, confidence f
 		// references (the name of a license) but not large chunks of the license.
 		if off < 0 {
 			if -off <= errorMargin {
+				if verifOn {
+					verifEmit("clamp", "origin", origin, "off", off, "ts", m.TargetStart, "claimed", m.TokensClaimed)
+				}
 				off = 0
 			} else {
 				continue
